@@ -69,6 +69,9 @@ def run_sessions(tape):
     sched.stall_anywhere = tape.pick("cfg/stall-anywhere", [0, 0, 10, 30])
     if tape.chance("cfg/long-stalls", 35):
         sched.stall_times = (1e-3, 30e-3, 150e-3, 400e-3)
+    # (a waiter polls the file lock once per loop iteration, ~30 us of virtual time each:
+    # seconds of stalls of the holder are tens of thousands of iterations, not a hang)
+    env.loop_max_iterations = 600_000
     nproc = 2 + tape.draw("c15/nprocs", 2)
     violations = []
     holder = {}          # terminal number -> (participant, task) inside its lock
